@@ -389,6 +389,26 @@ def resources(model, module):
         if isinstance(node, ast.Call):
             d = dotted(node.func) or ''
             if d.endswith('resource_string') or d.endswith('get_data') or d.endswith('resource_filename'):
-                if len(node.args) >= 2 and isinstance(node.args[1], ast.Constant) and isinstance(node.args[1].value, str):
-                    fn = node.args[1].value
-                    yield node, fn, model.exists(PKG + '/' + fn)
+                if len(node.args) >= 2:
+                    for fn in _string_values(node.args[1], node):
+                        yield node, fn, model.exists(PKG + '/' + fn)
+
+
+def _string_values(e, at):
+    """the string constants expression ``e`` can take: a literal, or a loop variable of an enclosing ``for`` over a literal
+    table (``for script, isexec in (('trans.pl', True), ...)`` / ``for script in ('a', 'b')``)."""
+    if isinstance(e, ast.Constant) and isinstance(e.value, str):
+        return [e.value]
+    if isinstance(e, ast.Name):
+        lp = getattr(at, '_parent', None)
+        while lp is not None:
+            if isinstance(lp, ast.For) and isinstance(lp.iter, (ast.Tuple, ast.List)):
+                if isinstance(lp.target, ast.Name) and lp.target.id == e.id:
+                    return [x.value for x in lp.iter.elts if isinstance(x, ast.Constant) and isinstance(x.value, str)]
+                if isinstance(lp.target, ast.Tuple):
+                    for k, t in enumerate(lp.target.elts):
+                        if isinstance(t, ast.Name) and t.id == e.id:
+                            return [r.elts[k].value for r in lp.iter.elts if isinstance(r, (ast.Tuple, ast.List)) and len(r.elts) > k
+                                    and isinstance(r.elts[k], ast.Constant) and isinstance(r.elts[k].value, str)]
+            lp = getattr(lp, '_parent', None)
+    return []
